@@ -588,6 +588,18 @@ def canonical_stmts(tree: ast.Module) -> ast.Module:
     if ns_consts:
         stores = {(n.value.id, n.attr) for n in ast.walk(tree) if isinstance(n, ast.Attribute) and isinstance(n.ctx, (ast.Store, ast.Del))
                   and isinstance(n.value, ast.Name)}
+        # a member that is a list / dict / set display and that anything mutates in place (X.append, X[k] = v) is shared state, not a constant
+        _mut_ns = ("append", "extend", "insert", "update", "setdefault", "pop", "popitem", "clear", "remove", "add", "discard", "sort", "reverse")
+        for n in ast.walk(tree):
+            b = None
+            if isinstance(n, ast.Subscript) and isinstance(n.ctx, (ast.Store, ast.Del)):
+                b = n.value
+            elif isinstance(n, ast.Call) and isinstance(n.func, ast.Attribute) and n.func.attr in _mut_ns:
+                b = n.func.value
+            if isinstance(b, ast.Attribute):
+                for key_ in list(ns_consts):
+                    if key_[1] == b.attr:
+                        ns_consts.pop(key_, None)
 
         class _NS(ast.NodeTransformer):
             def visit_Attribute(self, n):
